@@ -21,7 +21,7 @@ LawsHoldOnSpec ==
        /\ \A a \in 2..n : M(c, Spec("before", a, "num")) = M(c, Spec("num", a - 1, ""))
        /\ \A a \in 1..n : M(c, Spec("mainline", lh[a], "")) = {lh[a]}
        /\ \A r \in Anc0(P, c.t) : LET m == M(c, Spec("mainline", r, ""))
-                                  IN \A x \in m : x \in SeqRange(lh) /\ r \in Ancestry(P, x)
+                                  IN \A x \in m : x \in SeqRange(lh) /\ r \in Anc0(P, x)
        /\ \A s \in SeqRange(c.others) : \A x \in M(c, Spec("ancestor", s, "")) \ {ERR} : x \in Anc0(P, c.t) \cap Anc0(P, s)
        /\ \A s \in SeqRange(c.others) : (s # Null /\ s \in Anc0(P, c.t)) => M(c, Spec("ancestor", s, "")) = {s}
 WitnessCrissCross == ~(\E s \in SeqRange(c.others) : Cardinality(M(c, Spec("ancestor", s, ""))) > 1)
